@@ -443,9 +443,10 @@ def gen_normal_inline(sch, rnd, g):
             if prev_space_ok and rnd.random() < 0.6:
                 txt = " " + txt
             ms = ()
-            for mn in ("link", "em", "strong", "code"):
+            for mn in ("link", "em", "strong", "code", "sup", "hl"):
                 if mn in rs.marks and rnd.random() < 0.22:
-                    at = {"href": rnd.choice(["x", "http://a/?b=1&c=2", 'q"<', ""]), "title": None} if mn == "link" else {}
+                    at = {"href": rnd.choice(["x", "http://a/?b=1&c=2", 'q"<', ""]), "title": None} if mn == "link" else \
+                        {"color": rnd.choice(["y", "red", 'q"<&', "none"])} if mn == "hl" else {}
                     ms = rs.ref_add((mn, flat.akey(at)), ms)
             trailing = k < n - 1 and rnd.random() < 0.3
             items.append(("t", txt + (" " if trailing else ""), ms))
@@ -453,6 +454,9 @@ def gen_normal_inline(sch, rnd, g):
         elif r < 0.86:
             items.append(("n", "hard_break", "{}", (), ()))
             prev_space_ok = False
+        elif r < 0.93 and "note" in rs.nodes:
+            items.append(("n", "note", flat.akey({"kind": rnd.choice(["x", "k", 'a"<b>&'])}), (), ()))
+            prev_space_ok = True
         else:
             at = {"src": rnd.choice(["i.png", "a&b.png", 'x".png', ""]), "alt": None, "title": rnd.choice([None, "t<i>", ""])}
             items.append(("n", "image", flat.akey(at), (), ()))
@@ -503,6 +507,8 @@ def gen_normal_block(sch, rnd, g, depth=0):
         return ("n", "code_block", "{}", (), (("t", txt, ()),) if txt else ())
     if r < 0.7:
         return ("n", "horizontal_rule", "{}", (), ())
+    if r < 0.76 and "aside" in rs.nodes:
+        return ("n", "aside", "{}", (), tuple(gen_normal_block(sch, rnd, g, depth + 1) for _ in range(rnd.randint(1, 2))))
     if r < 0.85 or not has_lists:
         return ("n", "blockquote", "{}", (), tuple(gen_normal_block(sch, rnd, g, depth + 1) for _ in range(rnd.randint(1, 2))))
     lt = rnd.choice(["bullet_list", "ordered_list"])
@@ -545,6 +551,8 @@ def check_export(ctx, sch, rnd):
     if html is None:
         return
     ctx.count("exports")
+    if sch.id == "rule-zoo":
+        ctx.count("exports_rule_zoo")
     ctx.ev()
     det = {**describe_doc(sch, d), "html": html[:1500]}
     try:
@@ -561,6 +569,15 @@ def check_export(ctx, sch, rnd):
         return
     # elements: only tags the bundled toDOM rules produce
     allowed = {"div", "p", "blockquote", "hr", "h1", "h2", "h3", "h4", "h5", "h6", "pre", "code", "img", "br", "a", "em", "strong", "ul", "ol", "li"}
+    if sch.id == "rule-zoo":
+        allowed |= {"aside", "span", "sup", "mark"}
+        kinds_doc = [json.loads(t[2])["kind"] for t in flat.toks(p[4], sch.leaf) if t[0] == "L" and t[1] == "note"]
+        kinds_dom = [el.get("data-kind") for el in frag.iter("span")]
+        cols_doc = {json.loads(m[1])["color"] for t in flat.toks(p[4], sch.leaf) for m in (t[2] if t[0] == "T" else t[3] if t[0] in ("L", "O") else ()) if m[0] == "hl"}
+        cols_dom = {el.get("data-c") for el in frag.iter("mark")}
+        if kinds_dom != [str(k_) for k_ in kinds_doc] or cols_dom != {str(c_) for c_ in cols_doc}:
+            ctx.violation("export-attrs", "note kinds / highlight colours after re-parsing %r %r differ from the document's %r %r" % (kinds_dom[:3], sorted(cols_dom)[:3], kinds_doc[:3], sorted(map(str, cols_doc))[:3]), det, {"kind": "attrs"})
+            return
     tags = [el.tag for el in frag.iter() if isinstance(el.tag, str)]
     bad = [t for t in tags if t not in allowed]
     if bad:
@@ -633,6 +650,8 @@ def check_roundtrip(ctx, sch, rnd):
     if back is None:
         return
     ctx.count("roundtrips")
+    if sch.id == "rule-zoo":
+        ctx.count("roundtrips_rule_zoo")
     ctx.ev()
     bp = flat.pt(back)
     if bp != p or not back.eq(d):
@@ -747,7 +766,7 @@ def case(ctx, rnd, i):
                     run_parse_slice(ctx, zoo, html, feats)
     elif k in (4, 5):
         for _ in range(4):
-            check_export(ctx, sch, rnd)
+            check_export(ctx, zoo_schema() if rnd.random() < 0.25 else sch, rnd)
     else:
         for _ in range(4):
-            check_roundtrip(ctx, sch, rnd)
+            check_roundtrip(ctx, zoo_schema() if rnd.random() < 0.25 else sch, rnd)
